@@ -34,6 +34,9 @@ pub enum SendPlan {
 	Gate(String),
 	/// wait for the named gate, then fail
 	GateThenFail(String, String),
+	/// the message is on the wire at once, but `send` only returns after the named gate opens
+	/// (a transport whose write completes late: the peer may answer before `send` has returned)
+	WireThenGate(String),
 }
 
 #[derive(Default)]
@@ -113,6 +116,11 @@ impl TransportSenderT for MockSender {
 				SendPlan::Gate(g) => {
 					shared.gates.wait(&g).await;
 					shared.wire.lock().push(msg);
+					Ok(())
+				}
+				SendPlan::WireThenGate(g) => {
+					shared.wire.lock().push(msg);
+					shared.gates.wait(&g).await;
 					Ok(())
 				}
 				SendPlan::GateThenFail(g, text) => {
